@@ -83,9 +83,17 @@ func c01Pool(r *rand.Rand) []net.Addr {
 }
 
 // buildOpening makes a client stream under key k: address+payload, chunked.
+var saltPrefixes = [][]byte{[]byte("GET / HTTP/1.1\r\n"), []byte("POST "), []byte("HEAD "), []byte("CONNECT "), []byte("HTTP/1.1 200"), {0x16, 0x03, 0x01, 0x02, 0x00}, {0x16, 0x03, 0x03},
+	[]byte("SSH-2.0-"), {0x13, 'B', 'i', 't'}, {0, 0, 0, 0, 0, 0, 0, 0}, {0xff, 0xff, 0xff, 0xff}, {5, 1, 0}, {4, 1}}
+
 func buildOpening(r *rand.Rand, k KeySpec, plaintext []byte) (stream, salt []byte) {
 	ck := k.Codec()
 	salt = randBytes(r, ck.C.SaltSize)
+	if r.Intn(6) == 0 {
+		// salts are arbitrary bytes chosen by the client: some clients deliberately start them with
+		// a prefix that looks like another protocol
+		copy(salt, saltPrefixes[r.Intn(len(saltPrefixes))])
+	}
 	enc := sscodec.NewStreamEncoder(ck, salt)
 	var sizes []int
 	switch r.Intn(4) {
@@ -552,6 +560,74 @@ func c01Straddle(c *vk.Ctx) {
 	}
 }
 
+// c01Rotation: the list is replaced by one in which some ids are kept but their secret or
+// cipher changed (key rotation under the same id), some keys are dropped and some added.
+// Afterwards exactly the new material authenticates.
+func c01Rotation(c *vk.Ctx) {
+	r := c.Rng
+	for round := 0; round < c.N(30, 150); round++ {
+		n := 2 + r.Intn(20)
+		A := RandKeys(r, n, nil, 0.1)
+		cl := BuildCipherList(A)
+		auth := service.NewShadowsocksStreamAuthenticator(cl, nil, nil, nil)
+		pool := c01Pool(r)
+		try := func(k KeySpec) (string, bool) {
+			plaintext := append(sscodec.AddrIP(net.IPv4(8, 8, 8, 8), 80, false), randBytes(r, r.Intn(50))...)
+			st, _ := buildOpening(r, k, plaintext)
+			id, inner, cerr := auth(&memConn{r: bytes.NewReader(st), remote: pool[r.Intn(len(pool))]})
+			return id, cerr == nil && inner != nil
+		}
+		// use every key once so that usage state (MRU, last client IP) exists
+		for _, k := range A {
+			try(k)
+		}
+		for gen := 0; gen < 3; gen++ {
+			B := append([]KeySpec(nil), A...)
+			var rotatedOld []KeySpec
+			for i := range B {
+				switch r.Intn(4) {
+				case 0: // same id, new secret
+					rotatedOld = append(rotatedOld, B[i])
+					B[i].Secret = randSecret(r) + "-rot"
+				case 1: // same id, other cipher
+					old := B[i]
+					B[i].Cipher = pick(r, cipherNames)
+					if B[i].Cipher != old.Cipher {
+						rotatedOld = append(rotatedOld, old)
+					}
+				}
+			}
+			if r.Intn(2) == 0 && len(B) > 1 {
+				rotatedOld = append(rotatedOld, B[len(B)-1])
+				B = B[:len(B)-1]
+			}
+			B = append(B, KeySpec{ID: fmt.Sprintf("new-%d-%d", round, gen), Cipher: pick(r, cipherNames), Secret: randSecret(r)})
+			cl.Update(BuildList(B))
+			for _, k := range B {
+				id, ok := try(k)
+				c.Eval("rotation|current-key|" + k.Cipher)
+				if !ok || !IDsFor(B, k)[id] {
+					c.Violation("C01/rotation/current-key-rejected-after-update", map[string]any{"key": k, "got_id": id, "authenticated": ok, "generation": gen})
+					return
+				}
+			}
+			for _, k := range rotatedOld {
+				if len(IDsFor(B, k)) > 0 {
+					continue // the same material is configured under some id
+				}
+				id, ok := try(k)
+				c.Eval("rotation|replaced-or-removed-key|" + k.Cipher)
+				if ok {
+					c.Violation("C01/rotation/replaced-key-still-authenticates-after-update", map[string]any{"key": k, "as_id": id, "generation": gen})
+					return
+				}
+			}
+			A = B
+			c.Count("rotations_checked", 1)
+		}
+	}
+}
+
 // c01BigConcurrent: many goroutines look up random keys of one large list from different
 // client IPs (every success re-orders the list); every lookup must succeed with the right id.
 func c01BigConcurrent(c *vk.Ctx) {
@@ -614,7 +690,9 @@ func init() {
 			c.Require("straddle_forced")
 			c.Require("big_concurrent_authenticated")
 			c01Run(c)
+			c.Require("rotations_checked")
 			c01Straddle(c)
+			c01Rotation(c)
 			c01BigConcurrent(c)
 		},
 	})
